@@ -357,9 +357,23 @@ def gen_errors(src: Path):
             raise Untranslatable("no `msg = f\"...\"` in _process_response")
         err_text = _str_expr(text_expr, {"__ints__": {"code": "code"}, "__optstr__": {"error": ("message", "msg")},
                                           "__strfuncs__": {"get_error_message": "getErrorMessage"}})
-    except (Untranslatable, OSError) as ex:
+        # code = error.get("code", <default>)
+        default_code = None
+        for n in ast.walk(pr):
+            if isinstance(n, ast.Assign) and len(n.targets) == 1 and isinstance(n.targets[0], ast.Name) and n.targets[0].id == "code" \
+                    and isinstance(n.value, ast.Call) and isinstance(n.value.func, ast.Attribute) and n.value.func.attr == "get" \
+                    and len(n.value.args) == 2 and isinstance(n.value.args[0], ast.Constant) and n.value.args[0].value == "code":
+                d = n.value.args[1]
+                if isinstance(d, ast.Name) and d.id in consts:
+                    default_code = consts[d.id]
+                else:
+                    default_code = int(ast.literal_eval(d))
+        if default_code is None:
+            raise Untranslatable("no `code = error.get(\"code\", <default>)` in _process_response")
+    except (Untranslatable, OSError, ValueError) as ex:
         aux_bad.append(f"_process_response text: {ex}")
         err_text = '""'
+        default_code = 0
     report["aux_untranslatable"] = aux_bad
     aux_ok = "true" if not aux_bad else "false"
     table_lean = "[" + ", ".join(f"({k}, {_lean_str(v)})" for k, v in table) + "]"
@@ -408,6 +422,9 @@ def isStandardJsonrpcError (code : Int) : Bool := {aux["isStandardJsonrpcError"]
 
 /-- body of `is_mcp_specific_error` -/
 def isMcpSpecificError (code : Int) : Bool := {aux["isMcpSpecificError"]}
+
+/-- the code `_process_response` assumes for an error object that carries none -/
+def defaultErrorCode : Int := {default_code}
 
 /-- text of the exception `send_message._process_response` raises for an error object with the
 given optional `message` and (defaulted) `code` -/
